@@ -10,7 +10,12 @@ pub mod cst {
     use vstd::prelude::*;
     #[verifier::external_body] pub struct BinaryExpr { _p: u64 }
     impl BinaryExpr { pub uninterp spec fn dot(&self) -> bool; }       // its operator token is `.`
-    pub enum Expr { PrefixExpr(super::CstNode), BinaryExpr(BinaryExpr), CallExpr(super::CstNode), ClosureExpr(super::CstNode), ParenExpr(super::CstNode), Other(super::CstNode) }
+    // the operands of `.` the lowering tells apart: an integer token (tuple index), a float token (`1.0` in `t.1.0`: two indices), an identifier (field)
+    #[verifier::external_body] pub struct IntExpr { _p: u64 }
+    #[verifier::external_body] pub struct FloatExpr { _p: u64 }
+    #[verifier::external_body] pub struct IdentExpr { _p: u64 }
+    pub enum Expr { PrefixExpr(super::CstNode), BinaryExpr(BinaryExpr), CallExpr(super::CstNode), ClosureExpr(super::CstNode), ParenExpr(super::CstNode),
+                    IntExpr(IntExpr), FloatExpr(FloatExpr), IdentExpr(IdentExpr), Other(super::CstNode) }
 }
 #[verifier::external_body] pub fn bin_is_dot(b: &cst::BinaryExpr) -> (r: bool) ensures r == b.dot() { unimplemented!() }   // matches!(b.op().map(|tok| tok.kind()), Some(MySyntaxKind::Dot))
 // the recursive calls and apply_trailing_args: uninterpreted results
@@ -65,3 +70,57 @@ pub open spec fn call_lowered(r: Option<ast::Expr>, callee: cst::Expr, args: Seq
         }
     }
 }
+// ---- the `.` arm: tuple projection / field access ----
+#[verifier::external_body] pub struct SyntaxToken { _p: u64 }
+impl SyntaxToken {
+    pub uninterp spec fn text(&self) -> Seq<char>;
+    #[verifier::external_body] pub fn to_string(&self) -> (r: String) ensures r@ == self.text() { unimplemented!() }
+    #[verifier::external_body] pub fn text_range(&self) -> (r: TextRange) { unimplemented!() }
+}
+impl cst::IntExpr {
+    pub uninterp spec fn token(&self) -> Option<SyntaxToken>;
+    #[verifier::external_body] pub fn value(&self) -> (r: Option<SyntaxToken>) ensures r == self.token() { unimplemented!() }
+    #[verifier::external_body] pub fn syntax(&self) -> (r: &SyntaxNode) { unimplemented!() }
+}
+impl cst::FloatExpr {
+    pub uninterp spec fn token(&self) -> Option<SyntaxToken>;
+    #[verifier::external_body] pub fn value(&self) -> (r: Option<SyntaxToken>) ensures r == self.token() { unimplemented!() }
+    #[verifier::external_body] pub fn syntax(&self) -> (r: &SyntaxNode) { unimplemented!() }
+}
+impl cst::IdentExpr { #[verifier::external_body] pub fn syntax(&self) -> (r: &SyntaxNode) { unimplemented!() } }
+impl cst::Expr { #[verifier::external_body] pub fn syntax(&self) -> (r: &SyntaxNode) { unimplemented!() } }
+pub trait ErrMsg {}            // impl Into<String>
+impl ErrMsg for String {}
+impl<'a> ErrMsg for &'a str {}
+impl LowerCtx { #[verifier::external_body] pub fn push_error<M: ErrMsg>(&mut self, range: Option<TextRange>, msg: M) { unimplemented!() } }
+#[verifier::external_body] pub fn rt_msg() -> (r: String) { unimplemented!() }
+// str::parse::<usize>: the number a digit string denotes (None for anything else)
+pub uninterp spec fn usize_of(s: Seq<char>) -> Option<usize>;
+#[verifier::external_body] pub fn parse_usize(s: &str) -> (r: Option<usize>) ensures r == usize_of(s@) { unimplemented!() }       // s.parse::<usize>().ok()
+#[verifier::external_body] pub fn parse_usize_res(s: &String) -> (r: Result<usize, ()>) ensures (r is Ok) == (usize_of(s@) is Some), r matches Ok(v) ==> usize_of(s@) == Some(v) { unimplemented!() }   // s.parse::<usize>()
+// str::split_once('.'): the text before and after the FIRST dot
+pub open spec fn first_dot(s: Seq<char>) -> Option<int> {
+    if exists|i: int| 0 <= i < s.len() && s[i] == '.' { Some(choose|i: int| 0 <= i < s.len() && s[i] == '.' && forall|j: int| 0 <= j < i ==> s[j] != '.') } else { None }
+}
+#[verifier::external_body]
+pub fn str_split_once_dot<'a>(s: &'a String) -> (r: Option<(&'a str, &'a str)>)
+    ensures r is None <==> first_dot(s@) is None,
+            r matches Some((a, b)) ==> a@ == s@.subrange(0, first_dot(s@)->0) && b@ == s@.subrange(first_dot(s@)->0 + 1, s@.len() as int),
+{ unimplemented!() }
+#[verifier::external_body] pub fn token_text_or_default(t: Option<SyntaxToken>) -> (r: String) ensures t matches Some(k) ==> r@ == k.text(), t is None ==> r@.len() == 0 { unimplemented!() }   // .map(|t| t.to_string()).unwrap_or_default()
+// the field-access case (identifier after the dot) is outside this fragment's claim
+#[verifier::external_body] pub fn lower_field_access(ctx: &mut LowerCtx, ident_expr: cst::IdentExpr, lhs: ast::Expr, trailing_args: Vec<ast::Expr>, astptr: ast::MySyntaxNodePtr) -> (r: Option<ast::Expr>) { unimplemented!() }
+// C11: `.` is left-associative and binds tightest: `t.1.0` is `(t.1).0`.  What follows the dot:
+//   an integer token n            ->  EProj(lhs, n)
+//   a float token spelled `a.b`   ->  EProj(EProj(lhs, a), b)      (the lexer's longest match made one token out of two indices)
+pub open spec fn proj_lowered(r: Option<ast::Expr>, rhs: cst::Expr, lhs: ast::Expr, astptr: ast::MySyntaxNodePtr) -> bool {
+    match rhs {
+        cst::Expr::IntExpr(i) => (i.token() matches Some(t) ==> (usize_of(t.text()) matches Some(n)
+            ==> r == Some(ast::Expr::EProj { tuple: Box::new(lhs), index: n, astptr }))),
+        cst::Expr::FloatExpr(f) => (f.token() matches Some(t) ==> (first_dot(t.text()) matches Some(d)
+            ==> (usize_of(t.text().subrange(0, d)) matches Some(a) ==> (usize_of(t.text().subrange(d + 1, t.text().len() as int)) matches Some(b)
+            ==> r == Some(ast::Expr::EProj { tuple: Box::new(ast::Expr::EProj { tuple: Box::new(lhs), index: a, astptr }), index: b, astptr }))))),
+        _ => true,
+    }
+}
+
